@@ -306,13 +306,96 @@ async def cwl_case(context):
     return None
 
 
+def describe_deployment(d):
+    return (d.name, d.type, json.dumps(d.config, sort_keys=True, default=str), d.external, d.lazy,
+            (d.scheduling_policy.name, d.scheduling_policy.type, json.dumps(d.scheduling_policy.config, sort_keys=True, default=str)),
+            d.workdir, None if d.wraps is None else (d.wraps.deployment, d.wraps.service))
+
+
+def describe_target(t):
+    return (type(t).__name__, t.locations, t.service, t.workdir, describe_deployment(t.deployment))
+
+
+def random_deployment():
+    from streamflow.core.config import Config
+    from streamflow.core.deployment import DeploymentConfig, WrapsConfig
+
+    return DeploymentConfig(
+        name=uniq("dep"), type=rng.choice(["docker", "ssh", "local", "slurm"]), config={"c": jsonish()} if rng.random() < 0.7 else {},
+        external=rng.random() < 0.5, lazy=rng.random() < 0.5,
+        scheduling_policy=Config(name=uniq("pol"), type=rng.choice(["data_locality", "x"]), config={"k": jsonish()} if rng.random() < 0.5 else {}) if rng.random() < 0.6 else None,
+        workdir=rng.choice([None, "/w d", "/tmp/é"]),
+        wraps=WrapsConfig(deployment=uniq("inner"), service=rng.choice([None, "svc", ""])) if rng.random() < 0.5 else None)
+
+
+def random_target():
+    from streamflow.core.deployment import LocalTarget, Target
+
+    if rng.random() < 0.2:
+        return LocalTarget(workdir=rng.choice([None, "/local w"]))
+    return Target(deployment=random_deployment(), locations=rng.randint(1, 5), service=rng.choice([None, "s1", ""]), workdir=rng.choice([None, "/t w", "/x"]))
+
+
+async def config_case(context):
+    """targets (with the deployment they are bound to), deployments, filters and steps that refer to them: every field comes back"""
+    from streamflow.core.config import BindingConfig
+    from streamflow.core.deployment import DeploymentConfig, FilterConfig, Target
+    from streamflow.workflow.step import DeployStep, ScheduleStep
+
+    lc = lambda: DefaultDatabaseLoadingContext(database=context.database)
+    t = random_target()
+    want = describe_target(t)
+    await t.save(context.database)
+    for _ in range(2):
+        got = describe_target(await Target.load(t.persistent_id, lc()))
+        if got != want:
+            return {"failure": "a target loaded back differs from the target saved", "saved": str(want), "loaded": str(got)}
+    d = random_deployment()
+    want = describe_deployment(d)
+    await d.save(context.database)
+    got = describe_deployment(await DeploymentConfig.load(d.persistent_id, lc()))
+    if got != want:
+        return {"failure": "a deployment loaded back differs from the deployment saved", "saved": str(want), "loaded": str(got)}
+    f = FilterConfig(name=uniq("flt"), type=rng.choice(["shuffle", "matching"]), config={"f": jsonish()} if rng.random() < 0.7 else {})
+    await f.save(context.database)
+    g = await FilterConfig.load(f.persistent_id, lc())
+    if (g.name, g.type, json.dumps(g.config, sort_keys=True, default=str)) != (f.name, f.type, json.dumps(f.config, sort_keys=True, default=str)):
+        return {"failure": "a filter loaded back differs from the filter saved", "saved": str((f.name, f.type, f.config)), "loaded": str((g.name, g.type, g.config))}
+    # a workflow with a deploy step and a schedule step bound to several targets and filters
+    wf = Workflow(context=context, name=uniq("wf"), config={})
+    dep = random_deployment()
+    ds = wf.create_step(cls=DeployStep, name="/" + uniq("s") + "-deploy", deployment_config=dep)
+    targets = [random_target() for _ in range(rng.randint(1, 3))]
+    filters = [FilterConfig(name=uniq("flt"), type="shuffle", config={}) for _ in range(rng.randint(0, 2))]
+    dirs = [rng.choice([None, "/in d", "/o"]) for _ in range(3)]
+    ss = wf.create_step(cls=ScheduleStep, name="/" + uniq("s") + "-schedule", binding_config=BindingConfig(targets=targets, filters=filters),
+                        connector_ports={dep.name: ds.get_output_port()}, job_prefix=rng.choice([None, "prefix"]),
+                        input_directory=dirs[0], output_directory=dirs[1], tmp_directory=dirs[2])
+
+    def desc(w):
+        a = next(s for s in w.steps.values() if isinstance(s, DeployStep))
+        b = next(s for s in w.steps.values() if isinstance(s, ScheduleStep))
+        return {"deploy": (a.name, describe_deployment(a.deployment_config), dict(a.input_ports), dict(a.output_ports)),
+                "schedule": (b.name, [describe_target(x) for x in b.binding_config.targets], [(x.name, x.type) for x in b.binding_config.filters],
+                             b.job_prefix, b.input_directory, b.output_directory, b.tmp_directory, dict(b.input_ports), dict(b.output_ports)),
+                "ports": {n: type(q).__name__ for n, q in w.ports.items()}}
+
+    want = desc(wf)
+    await wf.save(context.database)
+    got = desc(await Workflow.load(persistent_id=wf.persistent_id, loading_context=lc()))
+    if got != want:
+        diff = {k: (want[k], got[k]) for k in want if want[k] != got[k]}
+        return {"failure": "a workflow with deploy / schedule steps loaded back differs from the one saved", "differences": str(diff)[:1200]}
+    return None
+
+
 async def search(n):
     workdir = tempfile.mkdtemp(prefix="c08.")
     context = build_context({"database": {"type": "default", "config": {"connection": ":memory:"}}, "path": workdir})
     try:
         await port_twice_case(context)
         for k in range(n):
-            bad = await asyncio.wait_for([token_case, workflow_case, token_case, cwl_case, incremental_save_case][k % 5](context), 60)
+            bad = await asyncio.wait_for([token_case, workflow_case, config_case, token_case, cwl_case, incremental_save_case][k % 6](context), 60)
             if bad:
                 return bad
     except Exception as e:
